@@ -80,8 +80,8 @@ Proof.
   destruct (hooks_run defs check C p r (s_heap st1)) as [[e0 h2] [[]|e]]; reflexivity.
 Qed.
 
-(* FULL STATEMENT (false on the current tree, see C10_instance_iff_conforming_refuted, C10_subclass_post_init_refuted and
-   C10_init_false_without_default_refuted; there for every class C that has a type-safe layer):
+(* FULL STATEMENT (false on the current tree, see C10_instance_iff_conforming_refuted and C10_subclass_post_init_refuted;
+   there for every class C that has a type-safe layer):
      forall check C p st st1 r e0 h2, path_candidate P C p st = (st1, Ok r) ->
        hooks_run defs check C p r (s_heap st1) = (e0, h2, Ok tt) ->
        (snd (run_path P check C p st) = Ok r <-> all_conform (check true) h2 (dc_fields C) r = true) /\
@@ -177,30 +177,30 @@ Proof.
 Qed.
 Print Assumptions C10_instance_iff_conforming_partial.
 
-(* FULL STATEMENT (false, see C10_init_false_without_default_refuted): whatever leaves a validating class instead of an
-   instance is a PedanticTypeCheckException.  Proved under the guard `every field holds a value when the check runs`
-   (all fields of __init__ do; an init=False field needs a default or an assignment in __post_init__): *)
-Theorem C10_rejects_with_type_check_exception_partial : forall check C p st st1 r e0 h2,
+(* whatever leaves a validating class instead of an instance - once the user-written part has returned - is a
+   PedanticTypeCheckException, whenever that is what the checker raises; a field that holds no value when the check runs
+   (init=False, no default, no hook assigns it) is rejected with PedanticTypeCheckException as well
+   (repair of finding C10-initfalse-nodefault: `if not hasattr(self, field.name): raise PedanticTypeCheckException`) *)
+Theorem C10_rejects_with_type_check_exception : forall check C p st st1 r e0 h2,
   (forall b h a v e, check b h a v = Raise e -> derives e PTypeCheckC = true) ->
-  (forall f, In f (dc_fields C) -> getattr h2 r (f_name f) <> None) ->
   validating P C = true ->
   path_candidate P C p st = (st1, Ok r) ->
   hooks_run defs check C p r (s_heap st1) = (e0, h2, Ok tt) ->
   forall e, snd (run_path P check C p st) = Raise e -> derives e PTypeCheckC = true.
 Proof.
-  intros check C p st st1 r e0 h2 Hped Hset Hv Hc Hh e He.
+  intros check C p st st1 r e0 h2 Hped Hv Hc Hh e He.
   destruct (C10_instance_iff_all_contexts check C p st st1 r e0 h2 Hv Hc Hh) as [_ [_ [H _]]].
   destruct (H e He) as [b [_ Hb]]. clear H.
-  revert Hb Hset. induction (dc_fields C) as [|f fs IH]; simpl; [discriminate|]. intros Hb Hset.
-  destruct (getattr h2 r (f_name f)) as [v|] eqn:Eg; [|exfalso; apply (Hset f); [now left|assumption]].
+  revert Hb. induction (dc_fields C) as [|f fs IH]; simpl; [discriminate|]. intros Hb.
+  destruct (getattr h2 r (f_name f)) as [v|] eqn:Eg; [|inversion Hb; reflexivity].
   destruct (check b h2 (f_ann f) v) as [[]|e1] eqn:Ec.
-  - apply IH; [assumption|]. intros g Hg. apply Hset. now right.
+  - now apply IH.
   - inversion Hb. subst. eapply Hped. eassumption.
 Qed.
-Print Assumptions C10_rejects_with_type_check_exception_partial.
+Print Assumptions C10_rejects_with_type_check_exception.
 
-(* the guard holds whenever every init=False field has a default (chain_ok), whatever the hooks do: they only add or
-   overwrite attributes *)
+(* every field of __init__ holds a value, and so does every init=False field with a default (chain_ok), whatever the hooks
+   do: they only add or overwrite attributes *)
 Theorem C10_fields_have_values : forall check C p st st1 r e0 h2 o,
   chain_ok C = true ->
   path_candidate P C p st = (st1, Ok r) ->
@@ -217,19 +217,19 @@ Proof.
 Qed.
 Print Assumptions C10_fields_have_values.
 
-(* the excluded region is real: x: int; y: int = field(init=False), no default, nothing assigns y.  Every request is
-   well formed and every given value conforms, yet the constructor raises AttributeError (getattr in validate_types) -
-   neither an instance nor a PedanticTypeCheckException.  Replayed on the real code (finding C10-initfalse-nodefault) *)
+(* formerly refuted (finding C10-initfalse-nodefault, fixed): x: int; y: int = field(init=False), no default, nothing
+   assigns y.  The request is well formed and the given value conforms; y has no value: PedanticTypeCheckException
+   (it was AttributeError from getattr in validate_types) *)
 Definition nf_layer : layer :=
   mkLayer 0 (Some (mkDeco true [])) [mkField 0 0 DNone true true; mkField 1 1 DNone false true] None.
 Definition nf_check : bool -> heap -> ann -> value -> outcome unit := fun _ _ _ _ => Ok tt.
-Theorem C10_init_false_without_default_refuted :
+Example C10_init_false_without_default_fixed :
   let C := [nf_layer] in let p := ByCtor [(0, VAtom 0)] in let st := mkSt [] [] in
   validating P C = true /\ chain_ok C = false /\ path_request_ok (dc_fields C) p (s_heap st) = true /\
   (forall b h a v, nf_check b h a v = Ok tt) /\
-  snd (run_path P nf_check C p st) = Raise AttributeErrorC /\ derives AttributeErrorC PTypeCheckC = false.
+  snd (run_path P nf_check C p st) = Raise PTypeCheckC /\
+  snd (validate_types P nf_check true C 0 (mkSt [mkObj (KData 0) [] [(0, VAtom 0)]] [])) = Raise PTypeCheckC.
 Proof. cbv zeta. repeat split; vm_compute; reflexivity. Qed.
-Print Assumptions C10_init_false_without_default_refuted.
 
 (* the full statement is false: a checker that resolves a name only in the caller's frame (a forward
    reference to a class local to the function that defines and uses the dataclass) accepts the value in
@@ -409,10 +409,10 @@ Print Assumptions C10_validating_classes.
 
 (* the property in terms of a specification of conformance: whenever the checker accepts what must
    conform and rejects with PedanticTypeCheckException what must not (C01/C02 for Model/Checker.v).
-   FULL STATEMENT: without the two guards (see the three refutations).  The verdicts are taken on the heap h2 the
-   user-written __post_init__ left; `field_is q f = false` for a field without value, so the second clause needs no
-   separate guard for init=False fields without default *)
-Theorem C10_against_specification_partial : forall check (must mustnot : heap -> ann -> value -> bool) C p st st1 r e0 h2,
+   The guards `validating` and `ctx_irrelevant` exclude the two refuted regions (C10_subclass_post_init_refuted,
+   C10_instance_iff_conforming_refuted).  The verdicts are taken on the heap h2 the user-written __post_init__ left; a field
+   without value counts as one that must not conform *)
+Theorem C10_against_specification : forall check (must mustnot : heap -> ann -> value -> bool) C p st st1 r e0 h2,
   ctx_irrelevant defs check C (path_via p) ->
   (forall h a v, must h a v = true -> check true h a v = Ok tt) ->
   (forall h a v, mustnot h a v = true -> exists e, check true h a v = Raise e /\ derives e PTypeCheckC = true) ->
@@ -422,7 +422,8 @@ Theorem C10_against_specification_partial : forall check (must mustnot : heap ->
   let field_is (q : heap -> ann -> value -> bool) f :=
     match getattr h2 r (f_name f) with Some v => q h2 (f_ann f) v | None => false end in
   (forallb (field_is must) (dc_fields C) = true -> snd (run_path P check C p st) = Ok r) /\
-  (forall pre f post, dc_fields C = pre ++ f :: post -> forallb (field_is must) pre = true -> field_is mustnot f = true ->
+  (forall pre f post, dc_fields C = pre ++ f :: post -> forallb (field_is must) pre = true ->
+     field_is mustnot f = true \/ getattr h2 r (f_name f) = None ->
      exists e, snd (run_path P check C p st) = Raise e /\ derives e PTypeCheckC = true).
 Proof.
   intros check must mustnot C p st st1 r e0 h2 Hi Hm Hn Hv Hc Hh field_is.
@@ -433,8 +434,9 @@ Proof.
   - intros pre f post Hd Hpre Hf.
     assert (Hfr : exists e, first_reject (check true) h2 (dc_fields C) r = Some e /\ derives e PTypeCheckC = true).
     { rewrite Hd. clear Hd. induction pre as [|g pre IH]; simpl.
-      - unfold field_is in Hf. destruct (getattr h2 r (f_name f)) as [v|]; [|discriminate].
-        destruct (Hn _ _ _ Hf) as [e [E1 E2]]. rewrite E1. now exists e.
+      - unfold field_is in Hf. destruct (getattr h2 r (f_name f)) as [v|].
+        + destruct Hf as [Hf|Hf]; [|discriminate]. destruct (Hn _ _ _ Hf) as [e [E1 E2]]. rewrite E1. now exists e.
+        + exists PTypeCheckC. split; reflexivity.
       - simpl in Hpre. apply andb_true_iff in Hpre as [Hg Hpre]. unfold field_is in Hg.
         destruct (getattr h2 r (f_name g)) as [v|]; [|discriminate]. rewrite (Hm _ _ _ Hg). now apply IH. }
     destruct Hfr as [e [E1 E2]]. exists e. split; [|assumption].
@@ -442,7 +444,7 @@ Proof.
     + apply first_reject_none in Eall. congruence.
     + destruct (B eq_refl) as [e' [F1 F2]]. congruence.
 Qed.
-Print Assumptions C10_against_specification_partial.
+Print Assumptions C10_against_specification.
 
 (* ... instantiated: with the checker of Model/Checker.v under the tables regenerated from check_types.py
    (what Model/DataclassEval.v evaluates), against Spec/Conforms.v, using C01/C02 (Proofs/CheckerTop.v).
@@ -511,8 +513,8 @@ Proof. cbv zeta. repeat split; vm_compute; reflexivity. Qed.
 
 (* hooks with a heap effect: the check reads the values the hook left.  B2: the hook sets field 0 to 4 - the
    non-conforming keyword value 3 is accepted (instance with 4); B3: the hook sets it to 5 - the conforming 2 is
-   rejected; A3: an init=False field without default that the hook assigns - no AttributeError, the guard of
-   C10_rejects_with_type_check_exception_partial holds although chain_ok does not *)
+   rejected; A3: an init=False field without default that the hook assigns - it has a value when the check runs
+   although chain_ok does not hold *)
 Definition hk (body : list pistmt) : layer :=
   mkLayer 0 (Some (mkDeco true [])) [mkField 0 0 DNone true true] (Some (mkPib body None)).
 Definition a3 : layer :=
